@@ -1213,6 +1213,11 @@ func (f *Field) Import(rowIDs, columnIDs []uint64, timestamps []*time.Time, opts
 				}
 			}
 		} else if timestamp == nil {
+			if f.options.NoStandardView {
+				// In order to match the logic of `SetBit()`, a bit without
+				// a timestamp is not stored when there is no standard view.
+				continue
+			}
 			standard = []string{viewStandard}
 		} else {
 			standard = viewsByTime(viewStandard, *timestamp, q)
